@@ -88,6 +88,26 @@ CLAIMS = {
          "manifolds on their side of the plane with volumes adding up is NOT decided here (listed as unverified)."),
    design='6 C09', technique='contract-based deductive verification: own VC generator over the clang AST (loop invariants with quantified list facts, ghost allocation watermark, reachability covers) + SMT (E-matching) + sympy ideal membership; native replay of refuted obligations',
    note=NOTE_COMMON + " OpenMP loop read sequentially. The geometric outcome of a division (closed daughters, volume split) is not under contract."),
+ 'C01': dict(
+   text=("The data-structure half of the property by contracts on the real mesh editing code over a full model of std::set<edge>: invariants of the "
+         "free-slot queues and of the edge set are required and preserved by add_node, delete_face, add_face (which never creates an edge with three "
+         "faces: it throws), get_edge; generate_edge_set makes every side of every triangle a stored edge listing it (arbitrary face); rebase rebuilds "
+         "the edge set after every renumbering; split_edge requests four triangles that join the new node to the four old ones and are wound like the "
+         "triangle they replace (thorough tier: callee preconditions at every call site, split edge gone, four new two-faced edges, labels). Unbounded "
+         "in mesh size. The global statements (two faces per edge everywhere, V-E+F=2, positive volume after a whole pass) need merge/swap under "
+         "contract too and are NOT decided."),
+   design='6 C01', technique='contract-based deductive verification: own VC generator over the clang AST (std::set<edge> model, quantified data invariants, ghost clock, covers) + SMT (E-matching) + sympy; native ASan replay of refuted obligations',
+   note=NOTE_COMMON + " merge_edge / swap_edge / can_be_merged topology is not under contract; the induction from the local contracts to whole-surface manifoldness is not made."),
+ 'C10': dict(
+   text=("Memory-safety obligations on the code paths the property names, generated under contracts on the real code: vector indexing in bounds, no "
+         "value() on an empty optional, no dereferenced end iterator, no reference into a vector used after an operation that may reallocate it "
+         "(storage epoch per vector), for add_node, delete_face, add_face, generate_edge_set, split_edge, merge_edge, rebase (renumbering always followed "
+         "by an edge-set rebuild) and mesh_reader::get_cell_mesh; facts read off the AST: scalar members of node initialised by every constructor, "
+         "virtual destructors for bases owned through unique_ptr, format_number call sites fit the 30-byte buffer. It decides these obligations for all "
+         "inputs of the functions under contract; it does not cover every execution of a simulation (ball pivoting, contact models beyond C06/C07/C20, "
+         "data races)."),
+   design='6 C10', technique='contract-based deductive verification: safety obligations of the VC generator over the clang AST (bounds, optional, iterator, reference epochs) + SMT; static AST facts; native ASan/valgrind replay',
+   note=NOTE_COMMON + " Reallocation is assumed at every push_back/reserve/resize (capacity not tracked). OpenMP regions read sequentially."),
  'C11': dict(
    text=("Contracts on the real remeshing code over a full model of std::set<edge>: the mesh primitives (add_node, get_edge, delete_face, add_face) with "
          "their data-structure invariants; split_edge: midpoint, momentum redistribution conserves the momentum of the three nodes, no surviving "
